@@ -14,9 +14,9 @@ from common import NCPU, Machinery, Scratch, nucs_env, read_ndjson, run_workers,
 
 # focus -> knobs of the item generator
 FOCUS = {
-    "C01": dict(solo=True, branching=True, modes=["solve", "solve", "min", "max"], ca=None),
-    "C02": dict(solo=True, branching=True, modes=["solve"], ca=None, reorder=True, allcfg=True, decision_orders=True),
-    "C03": dict(modes=["min", "max"], ca=None, allvars=True),
+    "C01": dict(solo=True, branching=True, modes=["solve", "solve", "min", "max"], ca=None, reuse=True),
+    "C02": dict(solo=True, branching=True, modes=["solve"], ca=None, reorder=True, allcfg=True, decision_orders=True, reuse=True),
+    "C03": dict(modes=["min", "max"], ca=None, allvars=True, reuse=True),
     "C04": dict(decision_orders=True, modes=["solve", "solve", "min"], ca=None, flavours=["circuit", "alias", "alias", "int", "bool"]),
     "C07": dict(solo=True, modes=["solve", "solve", "min", "max"], ca=None, flavours=["int", "int", "bool", "alias"]),
     "C08": dict(modes=["solve", "solve", "min", "max"], ca=0, flavours=["int", "int", "bool", "circuit", "alias"]),
@@ -180,9 +180,32 @@ def decision_order_items(tier: str, seed: int, focus: str):
     return out
 
 
+def reuse_items(tier: str, seed: int, focus: str):
+    """The same BacktrackSolver object called a second time: an earlier (unobserved) exhaustive enumeration, partial
+    enumeration, minimisation or maximisation, then the recorded call.  Every call is a call of the properties."""
+    r = random.Random(seed * 4099 + 7)
+    knobs = FOCUS[focus]
+    fam = [P for P in problems.small_family() if not all(lo == hi for lo, hi in P["doms"])]
+    r.shuffle(fam)
+    out = []
+    n = 260 if tier == "quick" else 4000
+    for k in range(n):
+        P = fam[k % len(fam)] if k % 3 else problems.random_problem(r, cap=200)
+        cfg = problems.random_config(r, P, ca=knobs.get("ca"))
+        mode = knobs["modes"][k % len(knobs["modes"])]
+        nv = len(P["vidx"])
+        it = {"P": P, "cfg": cfg, "mode": mode, "prior": [["solve", "partial", "min", "max"][k % 4], r.randrange(nv)]}
+        if mode != "solve":
+            it["var"] = r.randrange(nv)
+        out.append(it)
+    return out
+
+
 def build_items(tier: str, seed: int, focus: str, n: int | None = None):
     items = _random_items(tier, seed, focus, n)
     if n is None:
+        if FOCUS[focus].get("reuse"):
+            items += reuse_items(tier, seed, focus)
         items += systematic_items(tier, seed, focus)
         if FOCUS[focus].get("decision_orders"):
             items += decision_order_items(tier, seed, focus)
@@ -250,7 +273,7 @@ def nontrivial(tr) -> bool:
 
 
 def item_key(it):
-    return json.dumps([it["P"], it["cfg"], it.get("mode", "solve"), it.get("var", -1), it.get("limit", -1)], sort_keys=True)
+    return json.dumps([it["P"], it["cfg"], it.get("mode", "solve"), it.get("var", -1), it.get("limit", -1), it.get("prior") or []], sort_keys=True)
 
 
 def record_and_judge(items, tmp, probes=True, timeout=3000):
@@ -325,18 +348,20 @@ def report_engine(rep, tier, seed, focus, prefixes, what):
                 with Scratch("shrink") as tmp:
                     small = shrink({"P": it["P"], "cfg": it["cfg"], "mode": it["mode"],
                                     **({"var": it["var"]} if "var" in it else {}),
-                                    **({"limit": it["limit"]} if "limit" in it else {})}, clause, tmp)
+                                    **({"limit": it["limit"]} if "limit" in it else {}),
+                                    **({"prior": it["prior"]} if it.get("prior") else {})}, clause, tmp)
                 rep.fail({"P": small["P"], "cfg": small["cfg"], "mode": small["mode"], "var": small.get("var", -1),
-                          "limit": small.get("limit", -1), "clause": clause, "event": -1, "minimised": True,
+                          "limit": small.get("limit", -1), "prior": small.get("prior") or [], "clause": clause, "event": -1, "minimised": True,
                           "algs": sorted({c["alg"] for c in small["P"]["props"]})},
                          f"{clause} (minimised) of {small['mode']} on {json.dumps(small['P'])[:300]} cfg={small['cfg']}")
             except Exception as ex:  # noqa: shrinking is best effort
                 rep.notes.append(f"shrinker failed: {ex}")
         if clause.startswith(prefixes):
             case = {"P": it["P"], "cfg": it["cfg"], "mode": it["mode"], "var": it.get("var", -1),
-                    "limit": it.get("limit", -1), "clause": clause, "event": l,
+                    "limit": it.get("limit", -1), "prior": it.get("prior") or [], "clause": clause, "event": l,
                     "algs": sorted({c["alg"] for c in it["P"]["props"]})}
-            rep.fail(case, f"{clause} at event {l} of {it['mode']} on {json.dumps(it['P'])[:300]} cfg={it['cfg']}")
+            rep.fail(case, f"{clause} at event {l} of {it['mode']} on {json.dumps(it['P'])[:300]} cfg={it['cfg']}"
+                           + (f" after an earlier {it['prior'][0]} call on the same solver object" if it.get("prior") else ""))
     rep.add(evaluations=r["items"], distinct_nontrivial=r["nontrivial"], states=r["states"],
             transitions=r["transitions"], traces_validated_against_impl=r["judged"], events=r["events"])
     rep.add(samples=r["samples"])
@@ -365,6 +390,8 @@ def replay_items(path, prefixes, prop):
             it["var"] = c["var"]
         if c.get("limit", -1) >= 0:
             it["limit"] = c["limit"]
+        if c.get("prior"):
+            it["prior"] = c["prior"]
         items.append(it)
     r = run_corpus("quick", 1, "C01", items=items)
     rc = 0
